@@ -35,7 +35,7 @@ Example C07_nonvacuous :
   let f := utf8_encode [105;110;102;111;33;40;34;98;34;41;59] in
   let rc := mkRunCfg (mkConfig false [([108;111;103], [105;110;102;111])]) true in
   let o := mkOracle None None (fun _ => false) (fun _ => false)
-                    (fun i => match i with O => FWrite 1 | _ => FNone end) false in
+                    (fun i => match i with O => FWrite 1 | _ => FNone end) LkOk in
   w_src (after rc [f; f] LAbsent o) <> [f; f] /\
   nth_error (w_src (after rc [f; f] LAbsent o)) 0 = Some f /\
   w_src (crash_world (world0 [f; f] LAbsent) (ro_effs (edit rc [f; f] LAbsent o)) 3 (Some [105])) = [f; f] /\
